@@ -8,6 +8,14 @@ import sys
 import warnings
 
 
+def _valid(astcat, ref, tree):
+    """the tree is a valid expression AST on this host: its reference text parses back to it"""
+    if ref is None:
+        return False
+    back = astcat.parse_expr(ref)
+    return back is not None and astcat.norm(back) == astcat.norm(tree)
+
+
 def main():
     repo, inp, outp = sys.argv[1], sys.argv[2], sys.argv[3]
     sys.path.insert(0, repo)
@@ -52,7 +60,7 @@ def main():
                     cu = U.expr_unparse(tree)
                 except Exception:
                     cu = None
-                res["catalogue"]["%s|%s" % (s, k)] = [ref, cu]
+                res["catalogue"]["%s|%s" % (s, k)] = [ref, cu, _valid(astcat, ref, tree)]
         from vf.checks import c04 as c04mod  # f-string structure shapes (pure ast construction)
 
         for d, t in c04mod.fstring_shapes():
@@ -65,7 +73,7 @@ def main():
                 cu = U.expr_unparse(t)
             except Exception:
                 cu = None
-            res["catalogue"]["F:" + d] = [ref, cu]
+            res["catalogue"]["F:" + d] = [ref, cu, _valid(astcat, ref, t)]
     with open(outp, "w") as f:
         json.dump(res, f)
 
